@@ -1047,6 +1047,11 @@ class VM:
 
     def _compare(self, a: JSValue, b: JSValue) -> int:
         """Compare two values. Returns -1, 0, or 1."""
+        # Objects (arrays among them) compare by their primitive values
+        if isinstance(a, JSObject):
+            a = self._to_primitive(a, "number")
+        if isinstance(b, JSObject):
+            b = self._to_primitive(b, "number")
         # Both strings: compare as strings
         if isinstance(a, str) and isinstance(b, str):
             if a < b:
@@ -1111,6 +1116,12 @@ class VM:
             return self._abstract_equals(1 if a else 0, b)
         if isinstance(b, bool):
             return self._abstract_equals(a, 1 if b else 0)
+
+        # Object and primitive: the object's primitive value decides
+        if isinstance(a, JSObject) and isinstance(b, (int, float, str)):
+            return self._abstract_equals(self._to_primitive(a), b)
+        if isinstance(b, JSObject) and isinstance(a, (int, float, str)):
+            return self._abstract_equals(a, self._to_primitive(b))
 
         return False
 
